@@ -29,6 +29,14 @@ CHECKS = {
          "TLC proves for n <= 6 (thorough 9) and all subsets that honest BIP37 proofs verify and yield the matched ids in order and that every listed corruption (hash altered/added/removed at every position, padding bit set, root differing from the header) is rejected, plus merkle-root lemmas (duplication of the last element, commitment to every leaf position, CVE-2012-2459 characterisation) for up to 33 (130) leaves; every enumerated proof, corruption, header boundary value and block (incl. witness patterns and the 252/253 count boundary) is executed on pycoin on BTC and LTC; 1,500 (12,000) seeded proofs with up to 300 leaves are validated as traces.",
          "Trusted: TLC/SANY, hashlib SHA-256 (C19). Verifier rules Core has but the property does not list (duplicate pair, total_transactions = 0, flag flips that still verify) are tallied, not demanded. Ground truth: vectors in pycoin/merkle.py, the real block in the repository's tests, the developer-reference merkleblock example.",
          "DESIGN.md section 4 C14, notes/C14.md"),
+ "C13": ("TLA+ specs TxRules/TxBuild (split relation, closed form and round-robin Deal machine shown equivalent; uniqueness; scaling lemma), Unspents (validate_unspents over every tx/database), CoinDecimal (digit-sequence conversions), Limbs; TLC exhaustive on small amounts, scaled replay and limb-arithmetic trace validation for amounts to 21e14; optional Apalache for unbounded integers",
+         "TLC proves conservation, positivity, differ-by-at-most-one with earlier outputs larger, uniqueness of the split and error-iff-insufficient for all requests with sum <= 7 (thorough 14), the scaling lemma that carries them to large amounts (Apalache: for every factor), validate_unspents never returning normally under any single or paired discrepancy within bounds, and exact decimal conversion on digit sequences; TLC-enumerated requests (plain, scaled to 21e14, through create_signed_tx), (transaction, database) pairs and amounts are executed on pycoin; 1,200 (12,000) seeded random sessions with realistic amounts are validated by a TLC trace spec using base-10^4 limb arithmetic.",
+         "Trusted: TLC/SANY, CPython fractions (cross-check of exported decimals). Requests whose outputs are all fixed and exceed the inputs are outside the property's error clause (pycoin builds them): only fee = in - out is demanded there. More than 4 payables / 3 inputs only via traces.",
+         "DESIGN.md section 4 C13, notes/C13.md"),
+ "C16": ("TLA+ specs P2PMsg (28 message layouts and type-letter codecs pinned from the protocol documents), P2PParse (cursor state machine, embedded transactions via TxParse), P2PGrid (case space); TLC round-trip and width lemmas; TLC-enumerated messages replayed on network.message.pack/parse and the streamer; recorded random messages validated by TLC trace spec",
+         "TLC checks Read(Pack(v) ++ tail) = <<v, tail>> per type letter, Parse(Pack(m)) = m, full consumption and re-pack equality per message over boundary values (ints 0/1/2^31+-/max, compact-size thresholds, arrays of 0/1/2/253 up to 1000, IPv4-mapped/IPv6, optional absent/true/false, strings to 65,536 bytes, real embedded transactions/headers/blocks) and prints each case with the bytes the protocol demands; every case is packed and parsed by pycoin and compared byte for byte and field by field; 540 (3,375) seeded random messages incl. arrays of ~2,200 elements are validated as traces.",
+         "Trusted: TLC/SANY; layouts are the builder's transcription of the protocol documentation / BIPs 31, 35, 37, 61, 130, 133, 144, 152, 155 (validated on the wiki version/addr examples and on 92 real transactions and 4 blocks re-packed byte for byte). Only BTC; merkleblock beyond one leaf belongs to C14; the message envelope is not covered.",
+         "DESIGN.md section 4 C16, notes/C16.md"),
 }
 
 NOT_APPLICABLE = {
